@@ -471,75 +471,72 @@ fn c07_union() {
 fn c07_scratchpad_conc() {
     use std::future::Future;
     use std::task::{Context, Poll};
+    let n: usize = std::env::var("C07_CONC").ok().and_then(|v| v.parse().ok()).unwrap_or(2);
     let c = new_ctx();
     let owner = sk(1);
     let c0 = Counter(SymU::fresh("stored_counter"));
-    let ca = Counter(SymU::fresh("delivered_counter_a"));
-    let cb = Counter(SymU::fresh("delivered_counter_b"));
-    // both deliveries are validly signed; their counters are unrelated to each other and to the stored one
+    // every delivery is validly signed; the counters are unrelated to each other and to the stored one
     // (stale, equal and newer deliveries all occur)
+    let counters: Vec<Counter> = (0..n).map(|i| Counter(SymU::fresh(&format!("delivered_counter_{}", (b'a' + i as u8) as char)))).collect();
     let old = pad_access::make(&owner, c0, b"old", Some(&owner));
     let key = old.network_address().to_record_key();
     c.net.hold(Record { key: key.clone(), value: try_serialize_record(&old, RecordKind::Scratchpad).unwrap().to_vec(), publisher: None, expires: None });
     c.net.inner.defer_puts.set(true);
     c.net.inner.yield_on_queries.set(true);
-    let pa = pad_access::make(&owner, ca, b"version-a", Some(&owner));
-    let pb = pad_access::make(&owner, cb, b"version-b", Some(&owner));
     let rec = |p: &Scratchpad| Record { key: key.clone(), value: try_serialize_record(p, RecordKind::Scratchpad).unwrap().to_vec(), publisher: None, expires: None };
-    let mut fa = Box::pin(c.node.store_replicated_in_record(rec(&pa)));
-    let mut fb = Box::pin(c.node.store_replicated_in_record(rec(&pb)));
+    let pads: Vec<Scratchpad> = counters.iter().enumerate().map(|(i, ct)| pad_access::make(&owner, *ct, format!("version-{}", (b'a' + i as u8) as char).as_bytes(), Some(&owner))).collect();
+    let mut futs: Vec<_> = pads.iter().map(|p| Box::pin(c.node.store_replicated_in_record(rec(p)))).collect();
     let w = noop_waker();
     let mut cx = Context::from_waker(&w);
-    let (mut da, mut db) = (false, false);
+    let mut done = vec![false; n];
     let mut trace = String::new();
     let mut guard = 0;
     loop {
         guard += 1;
-        assert!(guard < 64, "scheduler does not terminate");
-        // enabled moves: poll A, poll B, apply the oldest pending put (puts are delivered in channel order)
-        let mut moves: Vec<u8> = vec![];
-        if !da {
-            moves.push(0);
-        }
-        if !db {
-            moves.push(1);
-        }
+        assert!(guard < 64 * n, "scheduler does not terminate");
+        // enabled moves: one step of any unfinished delivery, or the oldest pending put takes effect (channel order)
+        let mut moves: Vec<usize> = (0..n).filter(|i| !done[*i]).collect();
         if c.net.pending_put_count() > 0 {
-            moves.push(2);
+            moves.push(n);
         }
         if moves.is_empty() {
             break;
         }
         let m = moves[choice(moves.len())];
-        match m {
-            0 => {
-                trace.push('A');
-                if let Poll::Ready(_) = fa.as_mut().poll(&mut cx) {
-                    da = true;
-                }
+        if m < n {
+            trace.push((b'A' + m as u8) as char);
+            if let Poll::Ready(_) = futs[m].as_mut().poll(&mut cx) {
+                done[m] = true;
             }
-            1 => {
-                trace.push('B');
-                if let Poll::Ready(_) = fb.as_mut().poll(&mut cx) {
-                    db = true;
-                }
-            }
-            _ => {
-                trace.push('p');
-                c.net.apply_pending_put(0);
-            }
+        } else {
+            trace.push('p');
+            c.net.apply_pending_put(0);
         }
     }
-    note(format!("schedule {trace} (A/B = step of delivery a/b, p = a deferred put takes effect)"));
+    note(format!("schedule {trace} (A/B/.. = step of that delivery, p = a deferred put takes effect)"));
     let fin = stored_pad(&c, &key).expect("held");
     cover("settled");
     check("conc:counter_never_decreases", c0.0.sle(fin.count().0).0);
-    // the stored version carries the highest counter among the stored one and the two deliveries
+    // the stored version carries the highest counter among the stored one and the deliveries
     let fc = fin.count().0;
-    let lost = fc.slt(ca.0).or(fc.slt(cb.0)).get();
+    let mut lost_t = symrt::SymBool::konst(false);
+    let mut all_newer = symrt::SymBool::konst(true);
+    let mut newer_count = 0usize;
+    for ct in &counters {
+        lost_t = lost_t.or(fc.slt(ct.0));
+    }
+    let lost = lost_t.get();
     if lost {
-        let both_newer = c0.0.slt(ca.0).and(c0.0.slt(cb.0)).get();
-        if both_newer {
+        // the known lost update needs two deliveries that are both newer than the stored version
+        for ct in &counters {
+            if c0.0.slt(ct.0).get() {
+                newer_count += 1;
+            } else {
+                all_newer = symrt::SymBool::konst(false);
+            }
+        }
+        let _ = all_newer;
+        if newer_count >= 2 {
             check_bool("conc:stored_version_is_highest_delivered[check_then_put_not_serialised]", false);
         } else {
             check_bool("conc:stored_version_is_highest_delivered", false);
